@@ -7,7 +7,7 @@ C = {}
 def add(pid, engine, text, note, technique):
     C[pid] = dict(engine=engine, text=text, note=note, technique=technique)
 
-add("C01","enum","Bounded exhaustive on the real decoders: all 36 factory-built implementations x every small matrix with row weights >= 2 x full powers of an LLR alphabet that hits every branch and rounding boundary (+-0, 8-bit round-half boundary, +-127/8, +-1e30, f32-underflow and subnormal values) x iteration limits; judged by the pure verdict/word/iteration relation the property states. Small-scope exhaustiveness is the right level: the relation can only break through a combination of a few local features (a degree-1 variable, a zero LLR, limit 0) that small scopes contain.","Real-valued LLRs: exhaustive over the stated alphabet only; matrices beyond the listed shapes not claimed.","bounded exhaustive input enumeration, relational oracle")
+add("C01","enum","Bounded exhaustive on the real decoders: all 36 factory-built implementations x every small matrix with row weights >= 2 x full powers of an LLR alphabet that hits every branch and rounding boundary (+-0, 8-bit round-half boundary, +-127/8, +-1e30, f32-underflow and subnormal values) x iteration limits; judged by the pure verdict/word/iteration relation the property states. Small scopes contain the combinations of local features the relation usually breaks through (a degree-1 variable, a zero LLR, limit 0); beyond them the check probes matrices with a check or a variable of degree 17, 65, 129, 257, 258, 300 (thorough 1025) and 1025 (4097) rows with saturated, 1e30 and sub-quantum LLRs: three defects of the pinned tree (NaN panics of the float A-Min* rule, i16 overflow of the 8-bit rules above variable degree 257) were found only there.","Real-valued LLRs: exhaustive over the stated alphabet only; matrices beyond the listed shapes not claimed.","bounded exhaustive input enumeration, relational oracle")
 add("C02","enum","Bounded exhaustive: every binary matrix of the listed small shapes and the whole staircase/near-staircase family, each with ALL messages and all message pairs, executed on the real encoder and compared with an independent GF(2) reference.","Trusted: the harness's bit-set GF(2) elimination; shapes beyond the bounds are not claimed.","bounded exhaustive input enumeration against a GF(2) reference model")
 add("C03","enum","Bounded exhaustive with checker-supplied arithmetics plugged into the real generic decoders: an exact integer min-sum inside a probing wrapper that logs every trait call; every small matrix in every/three insertion orders x integer LLR alphabets x limits; verdict, word, iteration count and the normalised call log must equal a textbook implementation. Exactness clause: every small forest x LLR grid, forcing wrapper, brute-force posterior.","Parametricity of the generic decoders in the arithmetic; float posterior comparison within 1e-9.","bounded exhaustive input enumeration with call-trace comparison against a textbook reference model")
 add("C04","enum","Exhaustive for the 16 eight-bit rules at degrees 2 and 3 (every vector in [-127,127]^d), count-profile enumeration to degree 30, grid enumeration for the 8 float rules; each output judged against exact box-plus / the real-valued rule with per-instance conditioning tolerances.","Float domain: stated alphabets only. Ill-conditioned instances are counted, not judged for accuracy.","exhaustive / bounded exhaustive input enumeration against a real-valued reference rule")
@@ -71,7 +71,7 @@ def main():
         "engines": [e for e in engines if e["serves_properties"]],
         "checks": checks,
         "not_applicable": [{"property_id": p, "reason": NA[p]} for p in sorted(NA)],
-        "notes": "See DESIGN.md. known_findings.txt lists the nine defects repaired by fix: commits in /repo (all 'fixed:' entries; no open findings).",
+        "notes": "See DESIGN.md. known_findings.txt lists the twelve repairs (fix: commits) of defects of the pinned tree in /repo (all 'fixed:' entries; no open findings).",
     }
     json.dump(m, open(os.path.join(HERE, "MANIFEST.json"), "w"), indent=1)
 
